@@ -39,8 +39,8 @@ class Home:
                                 ('%s:%d:\n' % (fpr, level)).encode())
         return rc
 
-    def clearsign(self, text, keyid=None):
-        args = ['--clearsign']
+    def clearsign(self, text, keyid=None, extra=()):
+        args = list(extra) + ['--clearsign']
         if keyid:
             args += ['--local-user', keyid]
         rc, out, err = self.gpg(args, text.encode('utf8'))
